@@ -389,6 +389,7 @@ fn fault_doc_run(t: Tier, w: &mut World, didx: usize, chunk: usize, sink: &mut S
         Some(d) => d,
         None => return,
     };
+    w.exec(json!({"op":"copy","from":"f.doc","to":"f.doc0"}));
     let mut branches: Vec<Vec<Value>> = vec![vec![read.clone()]];
     let is_text = matches!(kind, 2 | 3 | 5) || (kind >= PK_ENCS.len() && matches!(SK_ENCS.get(kind - PK_ENCS.len()), Some(&"hex") | Some(&"pkcs8-pem")));
     if is_text {
@@ -446,6 +447,12 @@ fn fault_doc_run(t: Tier, w: &mut World, didx: usize, chunk: usize, sink: &mut S
         let mut f = w.fork();
         for op in br {
             f.exec(op);
+        }
+        // history: the pristine document is read again after the damaged one
+        if bi % 8 == 5 {
+            f.exec(json!({"op":"copy","from":"f.doc0","to":"f.doc"}));
+            f.exec(read.clone());
+            f.bump("history.pristine-after-damaged");
         }
         sink.done(f);
     }
